@@ -37,7 +37,7 @@ EXTRA = {
  "C03f-function-optimizer-error-replaces-main": ["C19"], "C03f-float-literal-string-by-value": ["C19"], "C18f-function-size-check-uses-main": ["C02"], "C18f-sqrt-fold-abandoned-keeps-constants": ["C03"],
  # round 10 (suffix j)
  "C01j-constant-index-survives-second-prepare": ["C19"], "C01j-createhash-bookkeeping-without-defer": ["C07", "C04"], "C01j-in-compares-floats-by-value": ["C16"],
- "C02j-host-function-resolved-once": ["C20", "C07"], "C02j-object-equal-floats-by-value": ["C01"], "C02j-unwind-only-in-outermost-run": ["C06", "C07"],
+ "C02j-host-function-resolved-once": ["C20", "C07"], "C02j-object-equal-floats-by-value": ["C01", "C16"], "C02j-unwind-only-in-outermost-run": ["C06", "C07"],
  "C03j-code-make-shared-scratch": ["C11"], "C03j-constants-regrouped-across-operand": ["C12"], "C03j-times-one-dropped": ["C01"],
  "C04j-field-maps-pooled-callee-map-kept": ["C07", "C11"], "C04j-non-ascii-digits-end-identifier": ["C14"], "C04j-unwind-only-in-outermost-run": ["C06"],
  "C05j-float-true-excludes-smallest-positive": ["C01"], "C05j-reflection-panic-recovered-fields-truncated": ["C04"], "C05j-struct-layouts-cached-by-type-string": ["C04", "C07"],
